@@ -116,3 +116,85 @@ Proof.
   - intros rh Hn Heff. destruct (Hh rh Hn Heff) as [_ H]. exact H.
   - intros Hcr. destruct (Hc Hcr) as [_ H]. exact H.
 Qed.
+
+(* ---------- a transaction that is aborted after it scheduled page writes (D16) ---------- *)
+Lemma run_writer_clean : forall plan ops k,
+  (forall i, (k <= i)%nat -> plan i = false) ->
+  let '(rs, e, k') := run_writer plan ops false k in
+  e = false /\ (k <= k')%nat /\ Forall (fun r => r_effective r = true /\ r_reported_err r = false) rs.
+Proof.
+  intros plan ops. induction ops as [|op ops IH]; intros k Hp; cbn [run_writer].
+  - split; [reflexivity|]. split; [lia | constructor].
+  - assert (Hk: plan k = false) by (apply Hp; lia).
+    destruct op as [id|reset]; rewrite Hk.
+    + specialize (IH (S k) ltac:(intros i Hi; apply Hp; lia)).
+      destruct (run_writer plan ops false (S k)) as [[rs e] k'] eqn:E. destruct IH as (A & B & C).
+      split; [exact A|]. split; [lia|]. constructor; [split; reflexivity | exact C].
+    + replace (if reset then false else false) with false by (destruct reset; reflexivity).
+      specialize (IH (S k) ltac:(intros i Hi; apply Hp; lia)).
+      destruct (run_writer plan ops false (S k)) as [[rs e] k'] eqn:E. destruct IH as (A & B & C).
+      split; [exact A|]. split; [lia|]. constructor; [split; reflexivity | exact C].
+Qed.
+
+Lemma run_writer_err_flag : forall plan pages err k,
+  let '(rs, e, k') := run_writer plan (abort_prog pages) err k in
+  e = true -> existsb r_reported_err rs = true \/ (pages = [] /\ err = true).
+Proof.
+  intros plan pages. unfold abort_prog. induction pages as [|p pages IH]; intros err k; cbn [map run_writer].
+  - intros ->. right. split; reflexivity.
+  - destruct err.
+    + destruct (run_writer plan (map WWrite pages) true k) as [[rs e] k'] eqn:E. intros _. left. reflexivity.
+    + specialize (IH (plan k) (S k)).
+      destruct (run_writer plan (map WWrite pages) (plan k) (S k)) as [[rs e] k'] eqn:E.
+      intros He. cbn [existsb r_reported_err]. destruct (IH He) as [H|[-> H]].
+      * left. rewrite H. apply orb_true_r.
+      * left. rewrite H. reflexivity.
+Qed.
+
+(* with the repair: whatever failed while the aborted transaction's writes were executed, the writer is
+   clean afterwards, and a following commit during which no call fails reports success with every
+   request effective *)
+Theorem abort_fixed_then_commit : forall plan flushed pages hdr,
+  let '(_, e, k) := run_abort true plan flushed false 0 in
+  e = false /\
+  ((forall i, (k <= i)%nat -> plan i = false) ->
+   let '(rs, e', _) := run_writer plan (commit_prog pages hdr) e k in
+   commit_reports_error rs = false /\ Forall (fun r => r_effective r = true) rs).
+Proof.
+  intros plan flushed pages hdr. unfold run_abort.
+  pose proof (run_writer_err_flag plan flushed false 0) as Hf.
+  destruct (run_writer plan (abort_prog flushed) false 0) as [[rs e] k] eqn:E.
+  cbn [andb].
+  assert (Hclean: forall e0 k0 rsx, (e0 = false) ->
+            (forall i, (k0 <= i)%nat -> plan i = false) ->
+            let '(rs', e', _) := run_writer plan (commit_prog pages hdr) e0 k0 in
+            commit_reports_error rs' = false /\ Forall (fun r => r_effective r = true) rs' /\ rsx = rsx :> list wres).
+  { intros e0 k0 rsx -> Hp. pose proof (run_writer_clean plan (commit_prog pages hdr) k0 Hp) as H.
+    destruct (run_writer plan (commit_prog pages hdr) false k0) as [[rs' e'] k'']. destruct H as (_ & _ & C).
+    split; [|split; [|reflexivity]].
+    - unfold commit_reports_error. apply Bool.not_true_is_false. intros X. apply existsb_exists in X as (r & Hin & Hr).
+      rewrite Forall_forall in C. destruct (C r Hin) as [_ D]. congruence.
+    - eapply Forall_impl; [|exact C]. intros r [A _]. exact A. }
+  destruct (existsb r_reported_err rs) eqn:Ex.
+  - cbn [run_writer]. destruct e.
+    + cbn. split; [reflexivity|]. intros Hp. specialize (Hclean false k rs eq_refl Hp).
+      destruct (run_writer plan (commit_prog pages hdr) false k) as [[rs' e'] k'']. tauto.
+    + cbn. split; [reflexivity|]. intros Hp. specialize (Hclean false (S k) rs eq_refl ltac:(intros i Hi; apply Hp; lia)).
+      destruct (run_writer plan (commit_prog pages hdr) false (S k)) as [[rs' e'] k'']. tauto.
+  - destruct e.
+    + destruct (Hf eq_refl) as [H|[_ H]]; [congruence | discriminate].
+    + split; [reflexivity|]. intros Hp. specialize (Hclean false k rs eq_refl Hp).
+      destruct (run_writer plan (commit_prog pages hdr) false k) as [[rs' e'] k'']. tauto.
+Qed.
+
+(* without it (the code before the repair): the next commit fails although none of its calls does *)
+Theorem abort_unfixed_refuted : exists plan flushed pages hdr,
+  let '(_, e, k) := run_abort false plan flushed false 0 in
+  (forall i, (k <= i)%nat -> plan i = false) /\
+  let '(rs, _, _) := run_writer plan (commit_prog pages hdr) e k in
+  commit_reports_error rs = true /\ Forall (fun r => r_attempted r = false) (firstn (length pages + 2) rs).
+Proof.
+  exists (fun i => Nat.eqb i 0), [3], [5; 6], 1. cbn. split.
+  - intros i Hi. destruct i; [lia | reflexivity].
+  - split; [reflexivity | repeat constructor].
+Qed.
